@@ -582,6 +582,16 @@ class BitStream(ConstBitStream, bitstring.BitArray):
         s_copy._bitstore = self._bitstore.copy()
         return s_copy
 
+    def __setattr__(self, attribute, value) -> None:
+        if attribute.startswith('_'):
+            object.__setattr__(self, attribute, value)
+            return
+        # Setting the value through a property (s.hex = 'ff', s.uint8 = 3) can change the length.
+        length_before = len(self)
+        super().__setattr__(attribute, value)
+        if len(self) != length_before:
+            self._pos = 0
+
     def __iadd__(self, bs: BitsType, /) -> BitStream:
         """Append to current bitstring. Return self.
 
